@@ -46,6 +46,20 @@ CLAIMED.update({
          "each error is built with the real errors package, returned through the parser, simple and extended handler paths "
          "and direct ErrorCode calls (nil included) of the real server; TLC validates every ErrorResponse field for field.",
          CONN_NOTE + " Texts are NUL-free and non-empty (E19, E21).", CONN_TECH, "4 C17"),
+ "C01": ("TLC checks on the bounded authentication model (validator accept/reject/fail x every message in place of the "
+         "password x continuations, pipelined or not) that the authenticated phases and everything they emit are "
+         "reachable only through an accepting validator call; the transition cover and random credentials run on the real "
+         "server with the real ClearTextPassword strategy; TLC validates reply kinds, SQLSTATE class 28, validator "
+         "arguments and the absence of any later callback.", CONN_NOTE, CONN_TECH, "4 C01"),
+ "C12": ("TLC explores startup packets (duplicates, empties, missing terminator), configured parameter maps colliding "
+         "with the built-ins, version, auth, refused SSL and Cancel at each stage; replayed on the real server; TLC "
+         "validates the ParameterStatus set (each key once, any order), the single ReadyForQuery, the parameters seen "
+         "by callbacks and the unchanged global map.",
+         CONN_NOTE + " Leakage between concurrent connections is judged by C15's multi-connection runs.", CONN_TECH, "4 C12"),
+ "C19": ("TLC explores middleware lists (succeed/fail at any position), auth, terminate hook and command histories; replayed "
+         "on the real server whose callbacks report marker chain, parameters, remote address, type map, liveness of the "
+         "command context and cancellation of the previous one; TLC validates order, propagation, cancellation and the "
+         "terminate hook.", CONN_NOTE, CONN_TECH, "4 C19"),
 })
 NOT_YET = "machinery for this property is not built yet in this revision (planned, see DESIGN.md section 4)"
 
